@@ -267,6 +267,21 @@ def overloads(prop):
         el_tree = load(os.path.join(binder.REPO, 'BPTK_Py/sddsl/element.py'))
     except (OSError, SyntaxError):
         el_tree = None
+    # the overload table is closed: the contracts below are on Operator and Element; a subclass that defines an arithmetic /
+    # comparison dunder of its own would escape them (it needs a contract of its own)
+    extra = []
+    for t_ in (ops_tree, el_tree):
+        if t_ is None:
+            continue
+        for nd in ast.walk(t_):
+            if isinstance(nd, ast.ClassDef) and nd.name not in ('Operator', 'Element'):
+                for fn_ in nd.body:
+                    if isinstance(fn_, ast.FunctionDef) and (fn_.name in OVERLOADS or fn_.name in ('__floordiv__', '__rfloordiv__', '__matmul__', '__invert__')):
+                        extra.append('%s.%s (line %d)' % (nd.name, fn_.name, fn_.lineno))
+    out.append(dict(name='%s/operators.py::overloads.closed' % prop, qualname='overloads', solver='ast', secs=0.0,
+                    status='discharged' if not extra else 'counterexample',
+                    path=['operator overloads outside the contract table: %s' % (extra or 'none')],
+                    model=None if not extra else dict(kind='overload-table', extra=extra)))
     for owner, kind, tree in (('Operator', 'Operator', ops_tree), ('Element', 'Element', el_tree)):
         if tree is None:
             continue
